@@ -101,6 +101,8 @@ def main(tier, seed, replay=None):
     cases = []; dist = dict(shape=0, random=0, nodes_before=0, nodes_after=0, shrunk=0)
     for tag, f in builders:
         root = f(); assign_ids(root)
+        if rs.rand() < 0.5:
+            c01.relabel_ids(root, rs)        # any bijection onto 0..n-1 is a valid labelling, not only the one assign_ids produces
         tab = G.Table(root)
         def snapshot():
             t_ = G.Table(root)
